@@ -30,6 +30,13 @@ MAXES = [7, 8, 9, 10, 12, 16, 17, 31, 32, 33, 40, 64, 128, 200, 1024, 4096, 1638
 
 def cases(tier, seed):
     rnd = random.Random('c06/%d' % seed)
+    # two caller threads sending on ONE association at the same time (line-level pre-emption
+    # inside send/encode): every message must still be one contiguous fragment sequence
+    for i in range(300 if tier == 'quick' else 10000):
+        m = rnd.choice([24, 40, 64, 128, 1024])
+        yield dict(local=m, peer=65536, seed=seed * 100043 + i, senders=2,
+                   fine=['send', 'encode', '_fragments', 'set_length'])
+    # (the bulk comes after the small families so that a budget cut never drops those)
     n = 3000 if tier == 'quick' else 80000
     for i in range(n):
         m = rnd.choice(MAXES)
@@ -39,12 +46,6 @@ def cases(tier, seed):
         else:
             local, peer = rnd.choice([65536, 2 ** 31, 2 ** 32 - 1]), m
         yield dict(local=local, peer=peer, seed=seed * 100003 + i)
-    # two caller threads sending on ONE association at the same time (line-level pre-emption
-    # inside send/encode): every message must still be one contiguous fragment sequence
-    for i in range(300 if tier == 'quick' else 10000):
-        m = rnd.choice([24, 40, 64, 128, 1024])
-        yield dict(local=m, peer=65536, seed=seed * 100043 + i, senders=2,
-                   fine=['send', 'encode', '_fragments', 'set_length'])
     if tier == 'thorough':
         from pynetdicom2 import dimsemessages  # noqa
         for m in range(7, 41):
